@@ -139,6 +139,11 @@ class USym(UBase):
     def bytes(self, name, n):
         return core.fresh_bytes(name, n)
 
+    def str(self, name, n, lo=0, hi=0x10FFFF):
+        """string of n symbolic code points in lo..hi"""
+        from .strings import fresh_str
+        return fresh_str(name, n, lo, hi)
+
     def buffer(self, prefix, name, n):
         """bytes: concrete prefix followed by n symbolic bytes"""
         return SymBytes(list(prefix) + self.bytes(name, n).items)
@@ -252,6 +257,26 @@ class UConc(UBase):
                 v = bytes(self.rng.randrange(256) for _ in range(n))
         self.drawn[name] = v.hex()
         return v
+
+    def str(self, name, n, lo=0, hi=0x10FFFF):
+        if self.given is not None and name in self.given:
+            cps = [int(c) for c in self.given[name]]
+            cps = (cps + [lo] * n)[:n]
+        else:
+            cps = []
+            for _ in range(n):
+                r = self.rng.random()
+                if r < 0.3:
+                    cands = [c for c in (lo, hi, 0, 0x1F, 0x20, 0x22, 0x27, 0x2E, 0x2F, 0x5C, 0x7E, 0x7F, 0x80, 0xFF, 0x100,
+                                         0xD7FF, 0xD800, 0xDFFF, 0xE000, 0xFFFF, 0x10000, 0x10FFFF, 0x41, 0x61, 0x30, 0x39, 0x3B, 0x5B)
+                             if lo <= c <= hi]
+                    cps.append(self.rng.choice(cands))
+                elif r < 0.7:
+                    cps.append(self.rng.randint(max(lo, 0x20), min(hi, 0x7E)) if max(lo, 0x20) <= min(hi, 0x7E) else self.rng.randint(lo, hi))
+                else:
+                    cps.append(self.rng.randint(lo, hi))
+        self.drawn[name] = cps
+        return "".join(chr(c) for c in cps)
 
     def buffer(self, prefix, name, n):
         return bytearray(bytes(prefix) + self.bytes(name, n))
